@@ -116,6 +116,10 @@ Theorem C19_births_are_sets : forall ops : list (@op V),
   forall x, In x (map fst (fst st)) -> exists v, nth_error ops (snd st x) = Some (OSet x v).
 Proof. exact (births_are_sets zero). Qed.
 
+Theorem C19_before_trans : forall (m : @omap V) a b c, Inv m ->
+  before a b (abs zero m) -> before b c (abs zero m) -> before a c (abs zero m).
+Proof. exact (m_before_trans zero). Qed.
+
 Theorem C19_any_interleaving : forall (threads : list (list (@op V))) h, interleaving threads h ->
   snd (run zero empty h) = snd (s_run zero [] h) /\
   abs zero (fst (run zero empty h)) = fst (s_run zero [] h) /\
@@ -164,6 +168,7 @@ Print Assumptions C19_order_stable_update.
 Print Assumptions C19_order_stable_delete.
 Print Assumptions C19_order_stable_filter.
 Print Assumptions C19_before_strict.
+Print Assumptions C19_before_trans.
 Print Assumptions C19_iteration_is_birth_order.
 Print Assumptions C19_births_are_sets.
 Print Assumptions C19_lock_discipline.
